@@ -1,7 +1,7 @@
 SPECIFICATION MCSpec
 CONSTANTS Tasks = {1, 2, 3}
   MaxT = 2
-  MaxSched = 5
+  MaxSched = 6
   MaxRuns = 3
   Fuel = 2
   GenDepth = 0
